@@ -1177,7 +1177,10 @@ def isC1P(matrix):
     cols = list(range(len(transposed_matrix[0])))
     sets = []
     for row in transposed_matrix:
-        sets.append([c for c in cols if row[c] == 1])
+        # identical columns can always be placed next to each other, so only one copy is kept
+        s = tuple(c for c in cols if row[c] == 1)
+        if s not in sets:
+            sets.append(s)
     try:
         reorder_sets(sets)
         return True
